@@ -24,6 +24,9 @@ type job struct {
 	Stanzas []refage.Stanza `json:"stanzas,omitempty"`
 	File    []byte          `json:"file,omitempty"`
 	Meter   bool            `json:"meter"`
+	// Configs (Route "RecipientEncrypt"): SetWorkFactor calls made, each inside
+	// a recover, on a fresh ScryptRecipient before it encrypts a file alone.
+	Configs []int64 `json:"configs,omitempty"`
 	// Steps, when present, make the job a history: all steps run in order on
 	// ONE identity value (unless a step asks for another object), and the
 	// outcome of step i is outcome.Sub[i]. Route/Stanzas/File/Meter above are
@@ -45,6 +48,11 @@ type step struct {
 	// job.Pass). An empty Route makes the step configuration only.
 	ID   int    `json:"id,omitempty"`
 	Pass string `json:"pass,omitempty"`
+	// BadMax: a configuration-only step that calls SetMaxWorkFactor(*BadMax)
+	// inside a recover, the way a program taking the limit from configuration
+	// guards a setter that has no error return. The harness's idea of the
+	// object's configured maximum is NOT changed by it.
+	BadMax *int64 `json:"bad_max,omitempty"`
 }
 
 // outcome is what the code under test did with a job.
@@ -59,6 +67,9 @@ type outcome struct {
 	// Soft: the error is of the "not for this identity" class
 	// (ErrIncorrectIdentity / NoIdentityMatchError), not a hard refusal.
 	Soft bool `json:"soft,omitempty"`
+	// CfgPanicked: the guarded configuration call(s) panicked (one entry per
+	// call for RecipientEncrypt; a single entry for a BadMax step).
+	CfgPanicked []bool `json:"cfg_panicked,omitempty"`
 
 	Sub []outcome `json:"sub,omitempty"` // per step, for a history
 }
@@ -97,6 +108,9 @@ func execute(j *job) (o outcome) {
 		o.Err = "harness: " + err.Error()
 		return o
 	}
+	if j.Route == "RecipientEncrypt" {
+		return recipientEncrypt(j)
+	}
 	if len(j.Steps) == 0 {
 		return runCall(id, j.Route, j.Stanzas, j.File, j.Meter)
 	}
@@ -132,12 +146,66 @@ func execute(j *job) (o outcome) {
 		} else if st.SetMax > 0 {
 			ob.id.SetMaxWorkFactor(st.SetMax)
 		}
+		if st.BadMax != nil {
+			v := int(*st.BadMax)
+			o.Sub = append(o.Sub, outcome{CfgPanicked: []bool{panics(func() { ob.id.SetMaxWorkFactor(v) })}})
+			continue
+		}
 		if st.Route == "" {
 			o.Sub = append(o.Sub, outcome{})
 			continue
 		}
 		o.Sub = append(o.Sub, runCall(ob.id, st.Route, st.Stanzas, st.File, st.Meter))
 	}
+	return o
+}
+
+func panics(f func()) (p bool) {
+	defer func() {
+		if recover() != nil {
+			p = true
+		}
+	}()
+	f()
+	return false
+}
+
+// recipientEncrypt: a fresh passphrase recipient, the guarded SetWorkFactor
+// calls of the job, then a lone encryption whose output comes back in Plain.
+func recipientEncrypt(j *job) (o outcome) {
+	rcp, err := age.NewScryptRecipient(j.Pass)
+	if err != nil {
+		o.Err = "harness: " + err.Error()
+		return o
+	}
+	for _, v := range j.Configs {
+		v := int(v)
+		o.CfgPanicked = append(o.CfgPanicked, panics(func() { rcp.SetWorkFactor(v) }))
+	}
+	var buf bytes.Buffer
+	run := func() {
+		defer func() {
+			if p := recover(); p != nil {
+				o.Panic = fmt.Sprintf("%v\n%s", p, debug.Stack())
+			}
+		}()
+		w, err := age.Encrypt(&buf, rcp)
+		if err != nil {
+			o.Err = err.Error()
+			return
+		}
+		if _, err := w.Write([]byte("recipient configuration")); err != nil {
+			o.Err = err.Error()
+			return
+		}
+		if err := w.Close(); err != nil {
+			o.Err = err.Error()
+			return
+		}
+		o.Accepted = true
+	}
+	o.Delta = mon.AllocDelta(run)
+	o.Plain = buf.Bytes()
 	return o
 }
 
